@@ -532,3 +532,136 @@ Definition data_snoc (d : data) (y : Qc) (cl dd1 dd2 : Z) : data :=
   {| d_y := d_y d ++ [y]; d_cl := d_cl d ++ [cl]; d_dd1 := d_dd1 d ++ [dd1]; d_dd2 := d_dd2 d ++ [dd2] |}.
 Definition obs_empty : pyobs := {| o_y := []; o_cl := []; o_dd1 := []; o_dd2 := []; o_cidx := []; o_1idx := []; o_2idx := [] |}.
 Definition data_empty : data := {| d_y := []; d_cl := []; d_dd1 := []; d_dd2 := [] |}.
+
+(* ---------------------------------------------------------------- vocabulary of the source translation, second part
+   (Generated/SrcGibbsObj.v, configurations C08_IMPL_* / C08_SDC_* of harness/src_functions.py): the constructor and
+   reset_model of LegacySparseDrugComboImpl, the wrappers of SparseDrugCombo, and what a closed whole-sweep statement
+   needs - the shapes __init__ gives the state arrays, well-shaped answers, reachable states. *)
+From Batchie Require Import Lib.Sexp.
+Open Scope Qc_scope.
+(* the WHOLE object as __init__ builds it: every attribute the constructor assigns.  The methods linked in the first part
+   see it split into [cfg_of] (sizes, hyper-parameters), the observation store [pi_obs] and the sampler state [pi_st]; the
+   five option flags are parameters of the translated methods that read them. *)
+Record pyimpl := { pi_D : Z; pi_ndd : Z; pi_ncl : Z; pi_minMu : Qc; pi_maxMu : Qc; pi_a0 : Qc; pi_b0 : Qc; pi_individual_eff : bool; pi_intercept : bool; pi_fake_intercept : bool; pi_local_shrinkage : bool; pi_mult_gamma_proc : bool; pi_steps : Z; pi_obs : pyobs; pi_st : st }.
+Definition set_pi_D o x := {| pi_D := x; pi_ndd := pi_ndd o; pi_ncl := pi_ncl o; pi_minMu := pi_minMu o; pi_maxMu := pi_maxMu o; pi_a0 := pi_a0 o; pi_b0 := pi_b0 o; pi_individual_eff := pi_individual_eff o; pi_intercept := pi_intercept o; pi_fake_intercept := pi_fake_intercept o; pi_local_shrinkage := pi_local_shrinkage o; pi_mult_gamma_proc := pi_mult_gamma_proc o; pi_steps := pi_steps o; pi_obs := pi_obs o; pi_st := pi_st o |}.
+Definition set_pi_ndd o x := {| pi_D := pi_D o; pi_ndd := x; pi_ncl := pi_ncl o; pi_minMu := pi_minMu o; pi_maxMu := pi_maxMu o; pi_a0 := pi_a0 o; pi_b0 := pi_b0 o; pi_individual_eff := pi_individual_eff o; pi_intercept := pi_intercept o; pi_fake_intercept := pi_fake_intercept o; pi_local_shrinkage := pi_local_shrinkage o; pi_mult_gamma_proc := pi_mult_gamma_proc o; pi_steps := pi_steps o; pi_obs := pi_obs o; pi_st := pi_st o |}.
+Definition set_pi_ncl o x := {| pi_D := pi_D o; pi_ndd := pi_ndd o; pi_ncl := x; pi_minMu := pi_minMu o; pi_maxMu := pi_maxMu o; pi_a0 := pi_a0 o; pi_b0 := pi_b0 o; pi_individual_eff := pi_individual_eff o; pi_intercept := pi_intercept o; pi_fake_intercept := pi_fake_intercept o; pi_local_shrinkage := pi_local_shrinkage o; pi_mult_gamma_proc := pi_mult_gamma_proc o; pi_steps := pi_steps o; pi_obs := pi_obs o; pi_st := pi_st o |}.
+Definition set_pi_minMu o x := {| pi_D := pi_D o; pi_ndd := pi_ndd o; pi_ncl := pi_ncl o; pi_minMu := x; pi_maxMu := pi_maxMu o; pi_a0 := pi_a0 o; pi_b0 := pi_b0 o; pi_individual_eff := pi_individual_eff o; pi_intercept := pi_intercept o; pi_fake_intercept := pi_fake_intercept o; pi_local_shrinkage := pi_local_shrinkage o; pi_mult_gamma_proc := pi_mult_gamma_proc o; pi_steps := pi_steps o; pi_obs := pi_obs o; pi_st := pi_st o |}.
+Definition set_pi_maxMu o x := {| pi_D := pi_D o; pi_ndd := pi_ndd o; pi_ncl := pi_ncl o; pi_minMu := pi_minMu o; pi_maxMu := x; pi_a0 := pi_a0 o; pi_b0 := pi_b0 o; pi_individual_eff := pi_individual_eff o; pi_intercept := pi_intercept o; pi_fake_intercept := pi_fake_intercept o; pi_local_shrinkage := pi_local_shrinkage o; pi_mult_gamma_proc := pi_mult_gamma_proc o; pi_steps := pi_steps o; pi_obs := pi_obs o; pi_st := pi_st o |}.
+Definition set_pi_a0 o x := {| pi_D := pi_D o; pi_ndd := pi_ndd o; pi_ncl := pi_ncl o; pi_minMu := pi_minMu o; pi_maxMu := pi_maxMu o; pi_a0 := x; pi_b0 := pi_b0 o; pi_individual_eff := pi_individual_eff o; pi_intercept := pi_intercept o; pi_fake_intercept := pi_fake_intercept o; pi_local_shrinkage := pi_local_shrinkage o; pi_mult_gamma_proc := pi_mult_gamma_proc o; pi_steps := pi_steps o; pi_obs := pi_obs o; pi_st := pi_st o |}.
+Definition set_pi_b0 o x := {| pi_D := pi_D o; pi_ndd := pi_ndd o; pi_ncl := pi_ncl o; pi_minMu := pi_minMu o; pi_maxMu := pi_maxMu o; pi_a0 := pi_a0 o; pi_b0 := x; pi_individual_eff := pi_individual_eff o; pi_intercept := pi_intercept o; pi_fake_intercept := pi_fake_intercept o; pi_local_shrinkage := pi_local_shrinkage o; pi_mult_gamma_proc := pi_mult_gamma_proc o; pi_steps := pi_steps o; pi_obs := pi_obs o; pi_st := pi_st o |}.
+Definition set_pi_individual_eff o x := {| pi_D := pi_D o; pi_ndd := pi_ndd o; pi_ncl := pi_ncl o; pi_minMu := pi_minMu o; pi_maxMu := pi_maxMu o; pi_a0 := pi_a0 o; pi_b0 := pi_b0 o; pi_individual_eff := x; pi_intercept := pi_intercept o; pi_fake_intercept := pi_fake_intercept o; pi_local_shrinkage := pi_local_shrinkage o; pi_mult_gamma_proc := pi_mult_gamma_proc o; pi_steps := pi_steps o; pi_obs := pi_obs o; pi_st := pi_st o |}.
+Definition set_pi_intercept o x := {| pi_D := pi_D o; pi_ndd := pi_ndd o; pi_ncl := pi_ncl o; pi_minMu := pi_minMu o; pi_maxMu := pi_maxMu o; pi_a0 := pi_a0 o; pi_b0 := pi_b0 o; pi_individual_eff := pi_individual_eff o; pi_intercept := x; pi_fake_intercept := pi_fake_intercept o; pi_local_shrinkage := pi_local_shrinkage o; pi_mult_gamma_proc := pi_mult_gamma_proc o; pi_steps := pi_steps o; pi_obs := pi_obs o; pi_st := pi_st o |}.
+Definition set_pi_fake_intercept o x := {| pi_D := pi_D o; pi_ndd := pi_ndd o; pi_ncl := pi_ncl o; pi_minMu := pi_minMu o; pi_maxMu := pi_maxMu o; pi_a0 := pi_a0 o; pi_b0 := pi_b0 o; pi_individual_eff := pi_individual_eff o; pi_intercept := pi_intercept o; pi_fake_intercept := x; pi_local_shrinkage := pi_local_shrinkage o; pi_mult_gamma_proc := pi_mult_gamma_proc o; pi_steps := pi_steps o; pi_obs := pi_obs o; pi_st := pi_st o |}.
+Definition set_pi_local_shrinkage o x := {| pi_D := pi_D o; pi_ndd := pi_ndd o; pi_ncl := pi_ncl o; pi_minMu := pi_minMu o; pi_maxMu := pi_maxMu o; pi_a0 := pi_a0 o; pi_b0 := pi_b0 o; pi_individual_eff := pi_individual_eff o; pi_intercept := pi_intercept o; pi_fake_intercept := pi_fake_intercept o; pi_local_shrinkage := x; pi_mult_gamma_proc := pi_mult_gamma_proc o; pi_steps := pi_steps o; pi_obs := pi_obs o; pi_st := pi_st o |}.
+Definition set_pi_mult_gamma_proc o x := {| pi_D := pi_D o; pi_ndd := pi_ndd o; pi_ncl := pi_ncl o; pi_minMu := pi_minMu o; pi_maxMu := pi_maxMu o; pi_a0 := pi_a0 o; pi_b0 := pi_b0 o; pi_individual_eff := pi_individual_eff o; pi_intercept := pi_intercept o; pi_fake_intercept := pi_fake_intercept o; pi_local_shrinkage := pi_local_shrinkage o; pi_mult_gamma_proc := x; pi_steps := pi_steps o; pi_obs := pi_obs o; pi_st := pi_st o |}.
+Definition set_pi_steps o x := {| pi_D := pi_D o; pi_ndd := pi_ndd o; pi_ncl := pi_ncl o; pi_minMu := pi_minMu o; pi_maxMu := pi_maxMu o; pi_a0 := pi_a0 o; pi_b0 := pi_b0 o; pi_individual_eff := pi_individual_eff o; pi_intercept := pi_intercept o; pi_fake_intercept := pi_fake_intercept o; pi_local_shrinkage := pi_local_shrinkage o; pi_mult_gamma_proc := pi_mult_gamma_proc o; pi_steps := x; pi_obs := pi_obs o; pi_st := pi_st o |}.
+Definition set_pi_obs o x := {| pi_D := pi_D o; pi_ndd := pi_ndd o; pi_ncl := pi_ncl o; pi_minMu := pi_minMu o; pi_maxMu := pi_maxMu o; pi_a0 := pi_a0 o; pi_b0 := pi_b0 o; pi_individual_eff := pi_individual_eff o; pi_intercept := pi_intercept o; pi_fake_intercept := pi_fake_intercept o; pi_local_shrinkage := pi_local_shrinkage o; pi_mult_gamma_proc := pi_mult_gamma_proc o; pi_steps := pi_steps o; pi_obs := x; pi_st := pi_st o |}.
+Definition set_pi_st o x := {| pi_D := pi_D o; pi_ndd := pi_ndd o; pi_ncl := pi_ncl o; pi_minMu := pi_minMu o; pi_maxMu := pi_maxMu o; pi_a0 := pi_a0 o; pi_b0 := pi_b0 o; pi_individual_eff := pi_individual_eff o; pi_intercept := pi_intercept o; pi_fake_intercept := pi_fake_intercept o; pi_local_shrinkage := pi_local_shrinkage o; pi_mult_gamma_proc := pi_mult_gamma_proc o; pi_steps := pi_steps o; pi_obs := pi_obs o; pi_st := x |}.
+(* a store to an attribute of the state / the observation store of the whole object *)
+Definition pi_set_W (o : pyimpl) x : pyimpl := set_pi_st o (set_W (pi_st o) x).
+Definition pi_set_W0 (o : pyimpl) x : pyimpl := set_pi_st o (set_W0 (pi_st o) x).
+Definition pi_set_V2 (o : pyimpl) x : pyimpl := set_pi_st o (set_V2 (pi_st o) x).
+Definition pi_set_V1 (o : pyimpl) x : pyimpl := set_pi_st o (set_V1 (pi_st o) x).
+Definition pi_set_V0 (o : pyimpl) x : pyimpl := set_pi_st o (set_V0 (pi_st o) x).
+Definition pi_set_alpha (o : pyimpl) x : pyimpl := set_pi_st o (set_alpha (pi_st o) x).
+Definition pi_set_prec (o : pyimpl) x : pyimpl := set_pi_st o (set_prec (pi_st o) x).
+Definition pi_set_tau (o : pyimpl) x : pyimpl := set_pi_st o (set_tau (pi_st o) x).
+Definition pi_set_tau0 (o : pyimpl) x : pyimpl := set_pi_st o (set_tau0 (pi_st o) x).
+Definition pi_set_phi2 (o : pyimpl) x : pyimpl := set_pi_st o (set_phi2 (pi_st o) x).
+Definition pi_set_phi1 (o : pyimpl) x : pyimpl := set_pi_st o (set_phi1 (pi_st o) x).
+Definition pi_set_phi0 (o : pyimpl) x : pyimpl := set_pi_st o (set_phi0 (pi_st o) x).
+Definition pi_set_eta2 (o : pyimpl) x : pyimpl := set_pi_st o (set_eta2 (pi_st o) x).
+Definition pi_set_eta1 (o : pyimpl) x : pyimpl := set_pi_st o (set_eta1 (pi_st o) x).
+Definition pi_set_eta0 (o : pyimpl) x : pyimpl := set_pi_st o (set_eta0 (pi_st o) x).
+Definition pi_set_gam (o : pyimpl) x : pyimpl := set_pi_st o (set_gam (pi_st o) x).
+Definition pi_set_Mu (o : pyimpl) x : pyimpl := set_pi_st o (set_Mu (pi_st o) x).
+Definition pi_set_o_y (o : pyimpl) x : pyimpl := set_pi_obs o (set_o_y (pi_obs o) x).
+Definition pi_set_o_cl (o : pyimpl) x : pyimpl := set_pi_obs o (set_o_cl (pi_obs o) x).
+Definition pi_set_o_dd1 (o : pyimpl) x : pyimpl := set_pi_obs o (set_o_dd1 (pi_obs o) x).
+Definition pi_set_o_dd2 (o : pyimpl) x : pyimpl := set_pi_obs o (set_o_dd2 (pi_obs o) x).
+Definition pi_set_o_cidx (o : pyimpl) x : pyimpl := set_pi_obs o (set_o_cidx (pi_obs o) x).
+Definition pi_set_o_1idx (o : pyimpl) x : pyimpl := set_pi_obs o (set_o_1idx (pi_obs o) x).
+Definition pi_set_o_2idx (o : pyimpl) x : pyimpl := set_pi_obs o (set_o_2idx (pi_obs o) x).
+(* the sizes as the model's configuration (a negative size never gets past np.zeros) *)
+Definition cfg_of (o : pyimpl) : cfg :=
+  {| c_D := Z.to_nat (pi_D o); c_ndd := Z.to_nat (pi_ndd o); c_ncl := Z.to_nat (pi_ncl o); c_a0 := pi_a0 o; c_b0 := pi_b0 o;
+     c_minMu := pi_minMu o; c_maxMu := pi_maxMu o |}.
+(* np.zeros(n) / np.zeros((n, m)) / np.ones(n): ValueError ("negative dimensions are not allowed") = Err 7 *)
+Definition np_zeros1 (n : Z) : result (list Qc) := if (n <? 0)%Z then Err 7%Z else Ok (repeat 0 (Z.to_nat n)).
+Definition np_ones1 (n : Z) : result (list Qc) := if (n <? 0)%Z then Err 7%Z else Ok (repeat 1 (Z.to_nat n)).
+Definition np_zeros2 (sh : Z * Z) : result (list (list Qc)) :=
+  if ((fst sh <? 0) || (snd sh <? 0))%Z then Err 7%Z else Ok (repeat (repeat 0 (Z.to_nat (snd sh))) (Z.to_nat (fst sh))).
+(* np.ones_like(a): ones in the shape of a *)
+Definition np_ones_like1 (a : list Qc) : list Qc := map (fun _ => 1) a.
+Definition np_ones_like2 (a : list (list Qc)) : list (list Qc) := map (map (fun _ => 1)) a.
+Definition q100 : Qc := qofZ 100.
+
+(* the state __init__ creates: zero embeddings, horseshoe precisions 100 and 1, tau = tau0 = prec = 100, gam = 1 (option
+   mult_gamma_proc), alpha = 0, an empty cache *)
+Definition init_st (g : cfg) : st :=
+  {| W := repeat (repeat 0 (c_D g)) (c_ncl g); W0 := repeat 0 (c_ncl g);
+     V2 := repeat (repeat 0 (c_D g)) (c_ndd g); V1 := repeat (repeat 0 (c_D g)) (c_ndd g); V0 := repeat 0 (c_ndd g);
+     alpha := 0; prec := q100; tau := repeat q100 (c_D g); tau0 := q100;
+     phi2 := repeat (repeat q100 (c_D g)) (c_ndd g); phi1 := repeat (repeat q100 (c_D g)) (c_ndd g); phi0 := repeat q100 (c_ndd g);
+     eta2 := repeat 1 (c_D g); eta1 := repeat 1 (c_D g); eta0 := 1; gam := repeat 1 (c_D g); Mu := [] |}.
+(* the object __init__ leaves behind (all five options recorded, no observation, step counter 0) *)
+Definition init_obj (D ndd ncl : nat) (intercept fake_intercept individual_eff mult_gamma_proc local_shrinkage : bool)
+    (a0 b0 minMu maxMu : Qc) : pyimpl :=
+  let g := {| c_D := D; c_ndd := ndd; c_ncl := ncl; c_a0 := a0; c_b0 := b0; c_minMu := minMu; c_maxMu := maxMu |} in
+  {| pi_D := Z.of_nat D; pi_ndd := Z.of_nat ndd; pi_ncl := Z.of_nat ncl; pi_minMu := minMu; pi_maxMu := maxMu; pi_a0 := a0; pi_b0 := b0;
+     pi_individual_eff := individual_eff; pi_intercept := intercept; pi_fake_intercept := fake_intercept;
+     pi_local_shrinkage := local_shrinkage; pi_mult_gamma_proc := mult_gamma_proc; pi_steps := 0%Z; pi_obs := obs_empty;
+     pi_st := init_st g |}.
+(* reset_model: the five embeddings times 0.0 (zeros of the same shape), alpha, prec and the cache as in __init__; the
+   precisions tau, tau0, phi*, eta*, gam keep their values *)
+Definition reset_st (s : st) : st :=
+  set_Mu (set_prec (set_alpha (set_V0 (set_V1 (set_V2 (set_W0 (set_W s (map (map (fun _ => 0)) (W s))) (map (fun _ => 0) (W0 s)))
+    (map (map (fun _ => 0)) (V2 s))) (map (map (fun _ => 0)) (V1 s))) (map (fun _ => 0) (V0 s))) 0) q100) [].
+
+(* every shape hypothesis of the block links: the parameter arrays have the sizes __init__ allocates *)
+Definition shapes (g : cfg) (s : st) : Prop :=
+  shape2 (W s) (c_ncl g) (c_D g) /\ length (W0 s) = c_ncl g /\
+  shape2 (V2 s) (c_ndd g) (c_D g) /\ shape2 (V1 s) (c_ndd g) (c_D g) /\ length (V0 s) = c_ndd g /\
+  length (tau s) = c_D g /\
+  shape2 (phi2 s) (c_ndd g) (c_D g) /\ shape2 (phi1 s) (c_ndd g) (c_D g) /\ length (phi0 s) = c_ndd g /\
+  length (eta2 s) = c_D g /\ length (eta1 s) = c_D g /\ length (gam s) = c_D g.
+(* the four observation arrays have one entry per observation (what _update maintains) *)
+Definition data_ok (d : data) : Prop := length (d_cl d) = nobs d /\ length (d_dd1 d) = nobs d /\ length (d_dd2 d) = nobs d.
+(* between sweeps the cache may be stale (shorter than the data, after _update); inside a sweep, after _reconstruct_Mu, it
+   has one entry per observation *)
+Definition sweep_ready (g : cfg) (d : data) (s : st) : Prop := shapes g s /\ (length (Mu s) <= nobs d)%nat.
+Definition in_sweep (g : cfg) (d : data) (s : st) : Prop := shapes g s /\ length (Mu s) = nobs d.
+
+(* a well-shaped answer to a draw (numpy's contract): a number for a scalar draw, an array of the shape of the array
+   argument for a vectorised draw, and for sample_mvn_from_precision either "raised" or a vector with one entry per row of Q *)
+Definition val_ok (dr : draw) (v : val) : Prop :=
+  match dr with
+  | DNormal _ _ | DGamma _ _ => exists q, v = VQ q
+  | DNormalVec vars => exists l, v = VV l /\ length l = length vars
+  | DMvn Q _ => v = VFail \/ exists l, v = VV l /\ length l = length Q
+  | DGammaVec _ rates => exists l, v = VV l /\ length l = length rates
+  | DGammaMat _ rates => exists m, v = VM m /\ length m = length rates /\ forall i, length (rnth m i) = length (rnth rates i)
+  end.
+(* equality of programs on well-shaped answers: the same draw arguments at every node, and equal continuations for every
+   well-shaped drawn value *)
+Inductive prog_eq_ws : prog -> prog -> Prop :=
+| PEW_ret : forall s, prog_eq_ws (Ret s) (Ret s)
+| PEW_draw : forall dr k1 k2, (forall v, val_ok dr v -> prog_eq_ws (k1 v) (k2 v)) -> prog_eq_ws (Draw dr k1) (Draw dr k2).
+(* a stream of answers each of which is well-shaped for the draw it answers *)
+Fixpoint answers_ok (p : prog) (vals : list val) : Prop :=
+  match p, vals with
+  | Draw dr k, v :: r => val_ok dr v /\ answers_ok (k v) r
+  | _, _ => True
+  end.
+(* every state a program can return for well-shaped answers *)
+Fixpoint all_rets_ws (P : st -> Prop) (p : prog) : Prop :=
+  match p with Ret s => P s | Draw dr k => forall v, val_ok dr v -> all_rets_ws P (k v) end.
+(* the states the object can be in: after __init__, any number of _update calls, whole sweeps (answered by well-shaped
+   draws) and reset_model calls, in any order *)
+Inductive reach (g : cfg) (orc : oracle) : data -> st -> Prop :=
+| R_init : reach g orc data_empty (init_st g)
+| R_update : forall d s y cl dd1 dd2, reach g orc d s -> reach g orc (data_snoc d y cl dd1 dd2) s
+| R_sweep : forall d s vals s', reach g orc d s -> answers_ok (mcmc_step g d orc s) vals ->
+    snd (run_prog (mcmc_step g d orc s) vals) = Some s' -> reach g orc d s'
+| R_reset : forall d s, reach g orc d s -> reach g orc d (reset_st s).
